@@ -53,7 +53,7 @@ fn parse_val(t: &str) -> DataValue {
         "tstz" => DataValue::TimestampTz(TimestampTz::new(rest.parse().unwrap())),
         "iv" => {
             let p: Vec<i32> = rest.split(':').map(|x| x.parse().unwrap()).collect();
-            DataValue::Interval(Interval::from_md(p[0], p[1]) + Interval::from_secs(p[2] / 1000))
+            DataValue::Interval(Interval::from_md_ms(p[0], p[1], p[2]))
         }
         "dec" | "vec" => {
             // through the engine's own text parser (no rust_decimal dependency in the harness)
@@ -105,7 +105,7 @@ fn gen_domain(r: &mut Rng, ty: &str, cw: Option<usize>, block: usize, feat: &mut
             "ts" => DataValue::Timestamp(Timestamp::new(*r.pick(&[i64::MIN, -1, 0, 1, 1_700_000_000_000_000, 0x0102030405060708, i64::MAX]))),
             "tstz" => DataValue::TimestampTz(TimestampTz::new(*r.pick(&[i64::MIN, -1, 0, 1, 1_700_000_000_000_000, 0x0102030405060708, i64::MAX]))),
             "iv" => {
-                let ms = if r.chance(1, 6) { feat.push("interval-subday"); *r.pick(&[1000, 3_600_000, -5000]) } else { 0 };
+                let ms = if r.chance(1, 3) { feat.push("interval-subday"); *r.pick(&[1, -1, 999, 1000, 3_600_000, -5000, 86_399_999, i32::MAX, i32::MIN]) } else { 0 };
                 parse_val(&format!("iv:{}:{}:{}", r.pick(&[0, 1, -1, 14, i32::MAX]), r.pick(&[0, 1, -1, 31, i32::MIN]), ms))
             }
             "vec" => parse_val(&format!("vec:{}", r.pick(&["[0;0;0]", "[1;2;3]", "[-1.5;0.25;1e300]", "[1;2;4]", "[NaN;inf;-inf]"]))),
